@@ -120,6 +120,11 @@ func (Implementation) Dlarfb(side blas.Side, trans blas.Transpose, direct lapack
 		panic(shortWork)
 	}
 
+	// Quick return if there are no reflectors.
+	if k == 0 {
+		return
+	}
+
 	bi := blas64.Implementation()
 
 	transt := blas.Trans
